@@ -291,6 +291,10 @@ def run(tier):
     chk.cov["samples"] = [[(o["a"], o["c"]) for o in b["ops"]] for b in behaviours[:3]]
     chk.cov["schedules_with_loss_on_real_code"] = lost
     chk.cov["forced_steps"] = forced
+    skipped = sum(r.get("skipped", 0) for r in res.get("results", []))
+    chk.cov["skipped_steps"] = skipped     # steps of a schedule that could not be forced (the procedure had already ended)
+    if forced == 0 or skipped > forced:
+        chk.infra.append("forced-schedule replay is (nearly) vacuous: %d steps forced, %d skipped" % (forced, skipped))
     # 3. backward conformance: traces of unforced concurrent load validated by TLC
     record_and_validate(chk, 10 if quick else 150, rng)
     # 4. Prop_FlushCovers / the full drain of W_FlushQ and A_BeginQ on the real LazyAOFWriter at a scale where its
